@@ -167,7 +167,8 @@ package keeper
 // ---------------------------------------------------------------------------------------------
 // C18: importing the dogfood genesis restores, for every exported opt-out and undelegation entry, BOTH records the
 // running chain keeps for it: the per-epoch queue entry and the per-operator finish epoch (resp. per-record maturity
-// epoch) that AfterUndelegationStarted and the epoch-end processing look up - with the same epoch.
+// epoch) that AfterUndelegationStarted and the epoch-end processing look up - with the same epoch - and, for an
+// undelegation, the hold on the record (the delegation module exports no hold counts: each queued maturity is one hold).
 //@ func (Keeper).SetOperatorOptOutFinishEpoch
 //@   flag frame_assumed
 //@   modifies store(ctx, "dogfood")
@@ -197,16 +198,7 @@ package keeper
 //@   invariant true
 //@ loop #7
 //@   invariant true
-//@   step[C18.ig.maturity] traceN() == old(traceN()) + 2 && ev_kind(traceAt(old(traceN()))) == 86 && ev_kind(traceAt(old(traceN()) + 1)) == 87 &&
-//@        ev_id(traceAt(old(traceN()))) == ev_id(traceAt(old(traceN()) + 1)) && ev_num(traceAt(old(traceN()))) == ev_num(traceAt(old(traceN()) + 1))
-
-// ---------------------------------------------------------------------------------------------
-// C07 (the operator->key and chain->consensus-address->operator indexes always agree; a key belongs to at most one
-// operator): when an operator starts removing its key, the dogfood hook may drop the reverse lookup of that key only if
-// the operator's forward entry is gone as well - as long as the operator module still says "this operator holds this
-// key", the key must stay resolvable (and therefore unavailable to other operators).
-//@ define opFwdKey(op, chain) = cat(bytelit(g("x/operator/types.BytePrefixForOperatorAndChainIDToConsKey")), cat(op, cat(u64be(len(chain)), chain)))
-//@ func (OperatorHooksWrapper).AfterOperatorKeyRemovalInitiated
-//@   flag pure=ToConsAddr,ChainIDWithoutRevision,GetExocoreValidator,IsOperator,IsAVSByChainID,Logger,getOperatorConsKeyForChainID
-//@   modifies state(ctx), trace
-//@   ensures[C07.aokri.agree] get(ctx, "operator", opFwdKey(operator, chainID)) != nil ==> store(ctx, "operator") == old(store(ctx, "operator"))
+//@   step[C18.ig.maturity] traceN() == old(traceN()) + 3 && ev_kind(traceAt(old(traceN()))) == 86 && ev_kind(traceAt(old(traceN()) + 1)) == 87 &&
+//@        ev_kind(traceAt(old(traceN()) + 2)) == 88 &&
+//@        ev_id(traceAt(old(traceN()))) == ev_id(traceAt(old(traceN()) + 1)) && ev_num(traceAt(old(traceN()))) == ev_num(traceAt(old(traceN()) + 1)) &&
+//@        ev_id(traceAt(old(traceN()) + 2)) == ev_id(traceAt(old(traceN())))
